@@ -40,6 +40,11 @@ fn raw_keys() -> Vec<Vec<u8>> {
     x.extend(lp(b"bar"));
     x.extend_from_slice(b"x");
     k_.push(x);
+    for tail in [&b""[..], b"a", b"\xff"] {
+        let mut x = lp(&FFNS);
+        x.extend_from_slice(tail);
+        k_.push(x);
+    }
     let mut x = lp(b"fo");
     x.extend(lp(b"o"));
     x.extend_from_slice(b"y");
@@ -49,7 +54,9 @@ fn raw_keys() -> Vec<Vec<u8>> {
     k_
 }
 
-const SINGLE: [&[u8]; 6] = [b"", b"foo", b"fo", b"\xff", b"f\xff\xff", b"food"];
+/// the longest namespace, all 0xFF: its length prefix is 0xFFFF too, so the raw prefix has no upper bound
+static FFNS: [u8; 65535] = [0xFF; 65535];
+const SINGLE: [&[u8]; 7] = [b"", b"foo", b"fo", b"\xff", b"f\xff\xff", b"food", &FFNS];
 const MULTI: [&[&[u8]]; 5] = [&[], &[b"foo"], &[b"foo", b"bar"], &[b"fo", b"o"], &[b"", b""]];
 const BOUNDS: [Option<&[u8]>; 4] = [None, Some(b""), Some(b"k"), Some(b"\xff")];
 
@@ -77,7 +84,7 @@ fn views() {
     let base = snapshot(&app);
     let which = choose(SINGLE.len() + MULTI.len());
     let prefix: Vec<u8> = if which < SINGLE.len() { lp(SINGLE[which]) } else { MULTI[which - SINGLE.len()].iter().flat_map(|s| lp(s)).collect() };
-    note(format!("prefix={}", lossy(&prefix)));
+    note(format!("prefix={} ({} bytes)", lossy(&prefix[..prefix.len().min(24)]), prefix.len()));
     fn open_view<'a>(app: &'a App, which: usize) -> Box<dyn Storage + 'a> {
         if which < SINGLE.len() {
             app.prefixed_storage(SINGLE[which])
@@ -100,10 +107,10 @@ fn views() {
                 match got {
                     Ok(g) => {
                         check_native("view_range_is_exactly_the_prefixed_window", g == want, || {
-                            format!("prefix {} bounds {:?}..{:?} desc={} got {:?} want {:?}", lossy(&prefix), s, e, desc, g, want)
+                            format!("prefix {} ({} bytes) bounds {:?}..{:?} desc={} got {:?} want {:?}", lossy(&prefix[..prefix.len().min(24)]), prefix.len(), s, e, desc, g, want)
                         });
                     }
-                    Err(p) => failure("view_range_does_not_panic", "panic", format!("prefix {} bounds {:?}..{:?}: {}", lossy(&prefix), s, e, p)),
+                    Err(p) => failure("view_range_does_not_panic", "panic", format!("prefix {} ({} bytes) bounds {:?}..{:?}: {}", lossy(&prefix[..prefix.len().min(24)]), prefix.len(), s, e, p)),
                 }
             }
         }
